@@ -47,7 +47,7 @@ def main(tier):
         if kind in ("task", "task0"):
             js.append({"program": p_, "families": ["task", "resource", "constraint"], "family": "interaction:" + lab.split("/")[2]})
     base = list(js)
-    js += common.staged(base, stride=5 if tier == "quick" else 1, kinds=("solve", "init"))
+    js += common.staged(base, stride=5 if tier == "quick" else 1, kinds=("solve", "init", "older"))
     js += common.early(base, stride=6 if tier == "quick" else 2)
     for j in js:
         # "binds only when the tasks concerned are scheduled": also the converse direction on every program
